@@ -11,6 +11,7 @@ process pools with per-task gates that force chosen completion orders and must
 agree with the scheduled pass.
 """
 import itertools
+import math
 import os
 import threading
 
@@ -38,6 +39,20 @@ ASSUMPTIONS = [
 ]
 
 MODS = (node_iter_mod, batch_mod, store_zip_mod)
+DEV_BOUND = 3
+CAP_CTX = [None, None]
+
+
+def explore_capped(run, limit):
+    '''sched.explore with an execution cap; a configuration that reaches the cap is counted, so that the evidence does not call the run exhaustive'''
+    n = 0
+    for item in sched.explore(run, limit=limit):
+        n += 1
+        yield item
+    if n >= limit and CAP_CTX[0] is not None:
+        CAP_CTX[0].count('configurations-that-reached-the-execution-cap')
+        CAP_CTX[0].extra['capped-example'] = f'{CAP_CTX[1]!r} cap={limit}'
+
 
 
 def containers():
@@ -144,7 +159,7 @@ def iter_interfaces(name, c):
 
 def scope(tier):
     if tier == 'quick':
-        return dict(workers=(1, 2, 3, 4), chunks=(1, 2), containers=('series4', 'frame3x3'), real=True)
+        return dict(workers=(1, 2, 3, 4), chunks=(1, 2, 3), containers=tuple(containers()), real=True)
     return dict(workers=(1, 2, 3, 4, 8), chunks=(1, 2, 3, 5), containers=tuple(containers()), real=True)
 
 
@@ -194,7 +209,15 @@ def run_apply_pool(case, ctx):
             log = []
             sched.CURRENT['log'] = log
             n_exec = 0
-            for trace, order, out in sched.explore(lambda: outcome(lambda: mk().apply_pool(fn, max_workers=workers, chunksize=chunk, use_threads=threads))):
+            # tasks as the pool sees them (process pools group by chunksize); completion orders = w^(n-w) * w!: beyond 50000 every order with at most
+            # DEV_BOUND deviations from submission order is executed instead (and the evidence says so)
+            npool = ntasks if threads else -(-ntasks // chunk)
+            est = (workers ** max(0, npool - workers)) * math.factorial(min(workers, npool))
+            bound = None if est <= 50000 else DEV_BOUND
+            if bound is not None:
+                ctx.count('deviation-bounded-configurations')
+                ctx.extra['deviation_bound'] = f'configurations with more than 50000 completion orders are explored up to {DEV_BOUND} deviations from submission order'
+            for trace, order, out in sched.explore(lambda: outcome(lambda: mk().apply_pool(fn, max_workers=workers, chunksize=chunk, use_threads=threads)), max_deviations=bound):
                 n_exec += 1
                 ctx.transition()
                 ctx.state((cname, label, workers, chunk, threads, tuple(order)))
@@ -210,7 +233,11 @@ def run_apply_pool(case, ctx):
             ctx.outcome(f'schedules={n_exec}')
             # one failing task, at each position: must raise for every schedule
             for fail in range(ntasks):
-                for trace, order, out in sched.explore(lambda: outcome(lambda: mk().apply_pool(make_failing(fn, fail), max_workers=workers, chunksize=chunk, use_threads=threads)), limit=40):
+                fbound = None if est <= (40 if tier == 'quick' else 3000) else 2
+                if fbound is not None and fail == 0:
+                    ctx.count('deviation-bounded-configurations')
+                    ctx.extra['deviation_bound_failing_task'] = 'failing-task configurations beyond 40 (quick) / 3000 (thorough) completion orders are explored up to 2 deviations'
+                for trace, order, out in sched.explore(lambda: outcome(lambda: mk().apply_pool(make_failing(fn, fail), max_workers=workers, chunksize=chunk, use_threads=threads)), max_deviations=fbound):
                     ctx.transition()
                     if out[0] != 'raises':
                         ctx.violation(f'apply_pool|{label.split("(")[0]}|failing-task-does-not-surface', **info, failing_task=fail, completion_order=order, got=repr(out)[:300])
@@ -277,7 +304,7 @@ def run_batch(case, ctx):
                 if 'except' in name and chunk != 1:
                     continue   # documented: apply_except idioms require chunksize 1
                 info = dict(operation=name, max_workers=workers, chunksize=chunk, use_threads=threads, frames=n)
-                for trace, order, out in sched.explore(lambda: outcome(lambda: run(workers, chunk, threads, n)), limit=400):
+                for trace, order, out in explore_capped(lambda: outcome(lambda: run(workers, chunk, threads, n)), 400 if tier == 'quick' else 6000):
                     ctx.transition()
                     ctx.state(('batch', name, workers, chunk, threads, n, tuple(order)))
                     if order != sorted(order):
@@ -314,43 +341,48 @@ def run_zip(case, ctx):
                     # every label has its own read configuration (the hierarchical frame needs index_depth=2); workers are set on all of them
                     mk = lambda d: sf.StoreConfig(index_depth=d, read_max_workers=workers, read_chunksize=chunk, write_max_workers=workers, write_chunksize=chunk)
                     cfgm = sf.StoreConfigMap({f.name: mk(f.index.depth) for f in frames_h}, default=mk(1))
-                base = None
                 wp = os.path.join(workdir(), f'c18_w_{fmt}_{workers}.zip')
-
-                def write_then_read():
-                    if os.path.exists(wp):
-                        os.remove(wp)
-                    fr = frames_h if fmt == 'zip_csv-per-label-config' else frames
-                    getattr(sf.Bus.from_frames(fr), to)(wp, config=cfgm)
-                    b = getattr(sf.Bus, frm)(wp, config=cfgm)
-                    sel = b.loc[[f.name for f in fr]]          # a multi-label read through the pool
-                    # the archive's own label order (member order of the zip, as written by the pool) is part of the result
-                    return (('labels-in-store-order', tuple(b.index.values.tolist())),) + tuple((k, snap(v)) for k, v in zip(sel.index.values.tolist(), sel._series.values))
-                for trace, order, out in sched.explore(lambda: outcome(write_then_read), limit=600):
-                    ctx.transition()
-                    ctx.state(('zip', fmt, workers, chunk, tuple(order)))
-                    if order != sorted(order):
-                        ctx.nontriv(('zip', fmt, workers, chunk, tuple(order)))
-                    if base is None:
-                        base = out
-                    if out[0] != 'ok' or out != base or (fmt == 'zip_pickle' and out[1] != seq[1] and False):
-                        ctx.violation(f'zip|{fmt}|result-depends-on-completion-order-or-differs-from-sequential', **info, completion_order=order, got=repr(out)[:300])
-                        break
-                # compare with the single-worker store
-                if os.path.exists(wp):
-                    os.remove(wp)
+                fr = frames_h if fmt == 'zip_csv-per-label-config' else frames
                 cfg1 = sf.StoreConfig(index_depth=1) if fmt != 'zip_pickle' else None
-                fr = frames
                 if fmt == 'zip_csv-per-label-config':
-                    fr = frames_h
                     cfg1 = sf.StoreConfigMap({f.name: sf.StoreConfig(index_depth=f.index.depth) for f in frames_h}, default=sf.StoreConfig(index_depth=1))
+
+                def observe(b, through_pool):
+                    # the archive's own label order (member order of the zip, as written) is part of the result; a multi-label read goes through the pool
+                    sel = b.loc[[f.name for f in fr]] if through_pool else b
+                    return (('labels-in-store-order', tuple(b.index.values.tolist())),) + tuple((k, snap(v)) for k, v in zip(sel.index.values.tolist(), (sel._series.values if through_pool else [b[k] for k in b.index])))
+
+                def fresh(path):
+                    if os.path.exists(path):
+                        os.remove(path)
+
+                # reference: single-worker write, single-worker read
+                fresh(wp)
                 getattr(sf.Bus.from_frames(fr), to)(wp, config=cfg1)
-                def read_one():
-                    b1 = getattr(sf.Bus, frm)(wp, config=cfg1)
-                    return (('labels-in-store-order', tuple(b1.index.values.tolist())),) + tuple((k, snap(v)) for k, v in b1.items())
-                one = outcome(read_one)
-                if base is not None and base != one:
-                    ctx.violation(f'zip|{fmt}|multi-worker-store-differs-from-single-worker', **info, got=repr(base)[:300], expected=repr(one)[:300])
+                one = outcome(lambda: observe(getattr(sf.Bus, frm)(wp, config=cfg1), False))
+                if one[0] != 'ok':
+                    ctx.violation(f'zip|{fmt}|single-worker-round-trip-fails', **info, got=repr(one)[:300])
+                    continue
+                # phase R: that file read through the pool, every completion order of the read tasks
+                # phase W: written through the pool under every completion order of the write tasks, then read back without a pool
+                # (the two phases share nothing but the file, so their orders are explored one after the other: a sum, not a product)
+                def read_pool():
+                    return observe(getattr(sf.Bus, frm)(wp, config=cfgm), True)
+
+                def write_pool():
+                    fresh(wp)
+                    getattr(sf.Bus.from_frames(fr), to)(wp, config=cfgm)
+                    return observe(getattr(sf.Bus, frm)(wp, config=cfg1), False)
+                for phase, body in (('read', read_pool), ('write', write_pool)):
+                    for trace, order, out in explore_capped(lambda: outcome(body), 5000):
+                        ctx.transition()
+                        ctx.state(('zip', fmt, phase, workers, chunk, tuple(order)))
+                        if order != sorted(order):
+                            ctx.nontriv(('zip', fmt, phase, workers, chunk, tuple(order)))
+                        if out != one:
+                            ctx.violation(f'zip|{fmt}|{phase}-through-pool|result-depends-on-completion-order-or-differs-from-sequential', **info, completion_order=order,
+                                          got=repr(out)[:300], expected=repr(one)[:300])
+                            break
     finally:
         undo()
     ctx.sample({'family': 'zip'}, limit=1)
@@ -468,5 +500,6 @@ def run_selftest(case, ctx):
 
 
 def run_case(case, ctx):
+    CAP_CTX[0], CAP_CTX[1] = ctx, case
     {'apply_pool': run_apply_pool, 'batch': run_batch, 'zip': run_zip, 'real-threads': run_real_threads, 'real-processes': run_real_processes,
      'executor-selftest': run_selftest}[case[0]](case, ctx)
